@@ -29,7 +29,7 @@ func sizes(c *core.Ctx) tierSizes {
 	if c.Quick() {
 		return tierSizes{depth2: 24, depth3: 4, nRand: 30, nPairs: 60, mcBound: 2}
 	}
-	return tierSizes{depth2: 160, depth3: 30, nRand: 120, nPairs: 300, full: true, mcBound: 3}
+	return tierSizes{depth2: 400, depth3: 60, nRand: 120, nPairs: 300, full: true, mcBound: 3}
 }
 
 // elemUniverse: every type term of constructor depth <= 1 (TLC's enumeration)
